@@ -1,4 +1,5 @@
 import Memterm.Props.C12
+import Memterm.Proofs.ModeOrder
 import Memterm.Proofs.DrawFrame
 import Memterm.Spec.C14
 
@@ -274,6 +275,12 @@ example :
     let r2 := restoreCursor r1
     (r1.cursor.y, r1.cursor.x) = (3, 6) ∧ (r2.cursor.y, r2.cursor.x) = (1, 2) ∧ r2.savepoints = [] := by
   decide
+
+/-! #### `restore_cursor` as the source writes it -/
+
+/-- with `set_mode(&[DECOM], false)` / `set_mode(&[DECAWM], false)` / `reset_mode(&[DECOM], false)` as in
+    src/screen.rs, `restore_cursor` is the model's `restoreCursor` -/
+theorem source_form_restore (s : Screen) : restoreCursorSrc s = restoreCursor s := restoreCursorSrc_eq s
 
 end C14
 end Memterm
